@@ -2,5 +2,6 @@ SPECIFICATION Spec
 CONSTANTS
   Depth = 6
   MaxBatch = 3
+  WithBundles = FALSE
 INVARIANTS Emit QueueNotReady Closed
 CHECK_DEADLOCK FALSE
